@@ -1316,7 +1316,9 @@ impl Database {
         let can_onepass = pk_lookup_info.is_some()
             && unique_col_indices.is_empty()
             && !has_toast
-            && deferred_assignments.is_empty();
+            && deferred_assignments.is_empty()
+            // the one-pass path does not build RETURNING rows
+            && update.returning.is_none();
 
         if can_onepass {
             if let Some((ref target_key, ref target_val)) = pk_lookup_info {
@@ -1512,6 +1514,14 @@ impl Database {
 
                     let mut old_toast_values: Vec<(usize, OwnedValue)> = Vec::new();
 
+                    // SET expressions read the row as it was before this statement: all
+                    // assignments of one UPDATE are evaluated against the old values
+                    let row_before_assignments = if deferred_assignments.is_empty() {
+                        Vec::new()
+                    } else {
+                        row_values.clone()
+                    };
+
                     for (col_idx, val) in &precomputed_assignments {
                         let old = std::mem::replace(&mut row_values[*col_idx], val.clone());
                         if let OwnedValue::ToastPointer(_) = old {
@@ -1523,7 +1533,8 @@ impl Database {
                         let col_map = column_map.as_ref().unwrap();
                         deferred_values_buf.clear();
                         {
-                            let values_iter = row_values.iter().map(|ov| ov.to_value());
+                            let values_iter =
+                                row_before_assignments.iter().map(|ov| ov.to_value());
                             let values_slice = arena.alloc_slice_fill_iter(values_iter);
                             let exec_row = ExecutorRow::new(values_slice);
 
@@ -2519,6 +2530,10 @@ impl Database {
                     _ => None,
                 };
                 if let Some(aop) = arith_op {
+                    // arithmetic over NULL is NULL, not an error
+                    if left_val.is_null() || right_val.is_null() {
+                        return Ok(OwnedValue::Null);
+                    }
                     OwnedValue::eval_arithmetic(&left_val, aop, &right_val).ok_or_else(|| {
                         eyre::eyre!("unsupported types or division by zero for {:?}", aop)
                     })
